@@ -259,11 +259,13 @@ class CompactCVecIterator : public CompactCVecIterBase<VecT, T> {
 
 template <typename T>
 inline T* alloc(size_t elts) {
+  DISPENSO_VERIF_NOTE("CvAlloc", nullptr, elts, 0);
   return reinterpret_cast<T*>(detail::alignedMalloc(elts * sizeof(T), alignof(T)));
 }
 
 template <typename T>
 inline void dealloc(T* p) {
+  DISPENSO_VERIF_NOTE("CvFree", p, 0, 0);
   detail::alignedFree(p);
 }
 
@@ -407,14 +409,18 @@ class ConVecBuffer : public ConVecBufferBase<T, kMinBufferSize, kMaxVectorSize, 
   template <typename CacheUpdate>
   void allocAsNecessaryImpl(const BucketInfo& binfo, CacheUpdate&& cacheUpdate) {
     if (DISPENSO_EXPECT(binfo.bucketIndex == allocCheckIndex(binfo.bucketCapacity), 0)) {
+      DISPENSO_VERIF_POINT("SaLdNext", this);
       if (!this->buffers_[binfo.bucket + 1].load(std::memory_order_acquire)) {
         T* newBuf = cv::alloc<T>(binfo.bucketCapacity << 1);
         cacheUpdate(binfo.bucket + 1, newBuf);
+        DISPENSO_VERIF_POINT("SaStNext", this);
         this->buffers_[binfo.bucket + 1].store(newBuf, std::memory_order_release);
         shouldDealloc_[binfo.bucket + 1] = true;
       }
     }
+    DISPENSO_VERIF_POINT("SaSpinLd", this);
     while (DISPENSO_EXPECT(!this->buffers_[binfo.bucket].load(std::memory_order_acquire), 0)) {
+      DISPENSO_VERIF_POINT("SaSpinLd", this);
     }
   }
 
@@ -425,8 +431,10 @@ class ConVecBuffer : public ConVecBufferBase<T, kMinBufferSize, kMaxVectorSize, 
       size_t cap,
       bool firstAccounted,
       CacheUpdate&& cacheUpdate) {
+    DISPENSO_VERIF_POINT("RaLdAsg", this);
     if (!this->buffers_[bucket].load(std::memory_order_acquire)) {
       cacheUpdate(bucket, allocBufs);
+      DISPENSO_VERIF_POINT("RaStAsg", this);
       this->buffers_[bucket].store(allocBufs, std::memory_order_release);
       allocBufs += cap;
       shouldDealloc_[bucket] = !firstAccounted;
@@ -451,6 +459,7 @@ class ConVecBuffer : public ConVecBufferBase<T, kMinBufferSize, kMaxVectorSize, 
       size_t cap = binfo.bucketCapacity << ((bool)binfo.bucket + !allocCurrentBucket);
       size_t bucket = binfo.bucket + 1 + !allocCurrentBucket;
       for (; bucket <= bend.bucket; ++bucket, cap <<= 1) {
+        DISPENSO_VERIF_POINT("RaLdCnt", this);
         if (!this->buffers_[bucket].load(std::memory_order_acquire)) {
           sizeToAlloc += cap;
         }
@@ -462,6 +471,7 @@ class ConVecBuffer : public ConVecBufferBase<T, kMinBufferSize, kMaxVectorSize, 
       const size_t endToCheck = allocCheckIndex(bend.bucketCapacity);
 
       if (DISPENSO_EXPECT(bend.bucketIndex > endToCheck, 0)) {
+        DISPENSO_VERIF_POINT("RaLdCntX", this);
         if (!this->buffers_[bucket].load(std::memory_order_acquire)) {
           sizeToAlloc += cap;
         }
@@ -487,7 +497,9 @@ class ConVecBuffer : public ConVecBufferBase<T, kMinBufferSize, kMaxVectorSize, 
       }
     }
     for (size_t bucket = binfo.bucket; bucket <= bend.bucket; ++bucket) {
+      DISPENSO_VERIF_POINT("RaSpinLd", this);
       while (DISPENSO_EXPECT(!this->buffers_[bucket].load(std::memory_order_acquire), 0)) {
+        DISPENSO_VERIF_POINT("RaSpinLd", this);
 #if defined(DISPENSO_HAS_TSAN)
         std::this_thread::sleep_for(std::chrono::microseconds(1));
 #endif // DISPENSO_HAS_TSAN
